@@ -264,6 +264,9 @@ def examine_parse(case):
         elif all_int:
             if not isinstance(r[1], int) or r[1] != exact:
                 out.append(V('parse-exact', ['parse', 'int-value'], case, r[1], str(exact)))
+        elif isinstance(r[1], float) and (math.isinf(r[1]) or math.isnan(r[1])):
+            if exact <= Fraction(10) ** 300:       # (beyond the range of floats there is no better float than inf)
+                out.append(V('parse-exact', ['parse', 'float-value', 'not-finite'], case, repr(r[1]), str(exact)))
         else:
             got = Fraction(r[1])
             if abs(got - exact) > abs(exact) * Fraction(1, 10 ** 9) + Fraction(1, 10 ** 12):
